@@ -1165,13 +1165,14 @@ class SpaceGraph(nx.DiGraph):
 
         while True:
 
-            if basroot in self.get_mro(subroot):
+            # A root is empty when one name is the tail of the other
+            if subroot and basroot and basroot in self.get_mro(subroot):
                 break
 
             if shared_desc:
                 n = shared_desc.pop(0)
-                subroot = ".".join(subroot.split(".") + [n])
-                basroot = ".".join(basroot.split(".") + [n])
+                subroot = subroot + "." + n if subroot else n
+                basroot = basroot + "." + n if basroot else n
             else:
                 raise RuntimeError("must not happen")
 
